@@ -804,6 +804,73 @@ def parse_calls(r, ncalls):
     return out, r[i:]
 
 
+# what each property observes of a call, for the WIDE stream (histories drawn with every dimension at once run under every client
+# property): a difference between implementation and model counts for a property only if it shows in that property's own observables -
+# a defect in, say, the encoding of 64-bit widths is C01 / C14's business and must not raise an alarm under C05
+ASPECTS = {'C01': 'sent', 'C07': 'sent', 'C14': 'sent', 'C18': 'sent', 'C02': 'decoded', 'C03': 'decoded', 'C11': 'decoded',
+           'C05': 'timing', 'C10': 'timing', 'C06': 'outcome', 'C08': 'outcome', 'C09': 'wire', 'C13': 'wire', 'C15': 'wire'}
+
+
+def wide_projection(prop, c, r):
+    aspect = ASPECTS.get(prop)
+    if aspect is None or not isinstance(r, list):
+        return ('all', repr(r))
+    try:
+        ops = case_ops(c)[1]
+        ncalls = len([o for o in ops if o[0] in ('call', 'call_send_fault')])
+        calls, state = parse_calls(r, ncalls)
+    except Exception:
+        return ('unparsed', repr(r))
+    out = []
+    for d in calls:
+        ev = d['events']
+        sent = tuple(e[1] for e in ev if e[0] == 'S')
+        waits = tuple((e[1], e[2]) for e in ev if e[0] == 'W')
+        tos = tuple(e[1] for e in ev if e[0] == 'TO')
+        resp = d['resp'] or {}
+        if aspect == 'sent':
+            out.append((sent, (d['kind'], d['err']) if not sent else None))
+        elif aspect == 'decoded':
+            out.append((d['kind'], d['err'], tuple(d['sdata'] or ()), d['value'], resp.get('valid'), resp.get('unexpected')))
+        elif aspect == 'timing':
+            out.append((waits, tos, d['end'], d['kind'] == 'raised' and d['err'] == 4))
+        elif aspect == 'outcome':
+            out.append((d['kind'], d['err'], resp.get('code'), resp.get('positive'), resp.get('valid'), resp.get('unexpected'), resp.get('payload'),
+                        len([e for e in ev if e[0] == 'CB'])))
+        else:
+            out.append((sent, tuple(e[0] for e in ev), tuple(e[1:] for e in ev if e[0] == 'ALGO'), d['kind'] == 'none'))
+    if aspect == 'timing':
+        out.append(tuple(state[:2]))
+    if aspect == 'wire':
+        out.append(tuple(state[2:]))
+    return out
+
+
+def wide_relevant(prop, c, r, m):
+    """does the difference between implementation result r and model result m concern property `prop`?  For the properties that are not
+    about the request itself, calls are compared only as long as both sides transmitted the same frames: once the requests differ (or one
+    side refused the call) what follows is the business of the properties about requests"""
+    aspect = ASPECTS.get(prop)
+    if aspect is None or aspect == 'sent':
+        return wide_projection(prop, c, r) != wide_projection(prop, c, m)
+    try:
+        ops = case_ops(c)[1]
+        ncalls = len([o for o in ops if o[0] in ('call', 'call_send_fault')])
+        cr, _ = parse_calls(r, ncalls)
+        cm, _ = parse_calls(m, ncalls)
+    except Exception:
+        return True
+    pr, pm = wide_projection(prop, c, r), wide_projection(prop, c, m)
+    for k in range(ncalls):
+        sr = tuple(e[1] for e in cr[k]['events'] if e[0] == 'S')
+        sm = tuple(e[1] for e in cm[k]['events'] if e[0] == 'S')
+        if sr != sm:
+            return False
+        if pr[k] != pm[k]:
+            return True
+    return pr[ncalls:] != pm[ncalls:]
+
+
 def case_ops(c):
     """decode the ops of a history case (mirror of Model/History.v decode_ops) for the oracles"""
     a = list(c.ints)
